@@ -42,6 +42,10 @@ fn f32_sources(rng: &mut Rng, n_rand: usize, out: &mut Vec<V>) {
     for s in specials { for k in [-2, -1, 0, 1, 2] { out.push(V::F32(nudge32(s, k))); } }
     // rounding ties of x*MAX for the small targets
     for m in [255.0f32, 65535.0] { for _ in 0..n_rand / 8 { let k = rng.below(m as u64) as f32 + 0.5; let x = k / m; for d in [-1, 0, 1] { out.push(V::F32(nudge32(x, d))); } } }
+    for m in [255.0f64, 65535.0, 4294967295.0, 18446744073709551615.0, 340282366920938463463374607431768211455.0] {
+        for t in [8388608.0f64, 16777216.0, 4503599627370496.0, 9007199254740992.0] { for d in -3..=3 { out.push(V::F32(nudge32((t / m) as f32, d))); } }
+    }
+    for k in 0..=130 { for d in -2..=2 { out.push(V::F32(nudge32(2f32.powi(-k), d))); } }
     for _ in 0..n_rand { out.push(V::F32(rng.unit() as f32)); }
     for _ in 0..n_rand / 2 { out.push(V::F32(f32::from_bits(rng.next() as u32))); }
     for _ in 0..n_rand / 4 { out.push(V::F32(rng.range(-2.0, 3.0) as f32)); }
@@ -58,6 +62,12 @@ fn f64_sources(rng: &mut Rng, n_rand: usize, out: &mut Vec<V>) {
     for _ in 0..n_rand / 4 { out.push(V::F64(rng.range(-2.0, 3.0))); }
     for _ in 0..n_rand / 4 { let e = rng.range(-300.0, 300.0); let s = if rng.chance(0.5) { -1.0 } else { 1.0 }; out.push(V::F64(s * 10f64.powf(e))); }
     for k in 0..64 { out.push(V::F64(1.0 / (1u128 << k) as f64)); out.push(V::F64(1.0 - 1.0 / (1u128 << k.min(53)) as f64)); }
+    // the code's own switch-over points: x*MAX next to 2^23, 2^24, 2^52, 2^53 (magic-number range / direct cast), for every target MAX,
+    // and every power of two down to 2^-130, each with its neighbouring floats
+    for m in [255.0f64, 65535.0, 4294967295.0, 18446744073709551615.0, 340282366920938463463374607431768211455.0] {
+        for t in [8388608.0f64, 16777216.0, 4503599627370496.0, 9007199254740992.0] { for d in -3..=3 { out.push(V::F64(nudge64(t / m, d))); } }
+    }
+    for k in 0..=130 { for d in -2..=2 { out.push(V::F64(nudge64(2f64.powi(-k), d))); } }
 }
 
 /// Exact reference for float -> uint on [0,1]: the set of integers that are a nearest integer to the
